@@ -81,6 +81,10 @@ fn check_ranges(seq: &[SMatch], text: &str, need_boundary: bool) -> Option<Strin
     None
 }
 
+/// Set by C15's quick tier: the six build variants skip the size-parameterised family (C06 explores it in
+/// three builds; C15 keeps the alignment family, which is where the build variants differ in code).
+pub static LIGHT: std::sync::atomic::AtomicBool = std::sync::atomic::AtomicBool::new(false);
+
 pub fn eval_one(profile: &str, ast: &Node, flags: Flags, hays: &[Hay], run: &Run, acc: &mut Acc) {
     let st = &mut acc.st;
     st.add("patterns_generated", 1);
@@ -113,7 +117,12 @@ pub fn eval_one(profile: &str, ast: &Node, flags: Flags, hays: &[Hay], run: &Run
                 // UTF-8 entry points: every char boundary, len, len+1. ASCII entry points accept any
                 // byte offset (documented precondition: ASCII text; on other text only absence of
                 // out-of-range access is demanded).
-                let starts: Vec<usize> = if mode.ascii { (0..=text.len() + 1).collect() } else { hay.offs.iter().copied().chain(std::iter::once(text.len() + 1)).collect() };
+                let mut starts: Vec<usize> = if mode.ascii { (0..=text.len() + 1).collect() } else { hay.offs.iter().copied().chain(std::iter::once(text.len() + 1)).collect() };
+                if profile == "scale" && starts.len() > 14 {
+                    // long haystacks of the size-parameterised families: both ends, the 8 / 16 / 32 marks, the middle
+                    let n = starts.len();
+                    starts = starts.iter().enumerate().filter(|(i, _)| *i <= 2 || *i + 4 >= n || *i == n / 2 || matches!(*i, 7 | 8 | 9 | 15 | 16 | 17 | 31 | 32 | 33)).map(|(_, s)| *s).collect();
+                }
                 for bs in starts {
                     st.add("evaluations", 1);
                     st.add("validated", 1);
@@ -227,6 +236,26 @@ pub fn explore(run: &Run) -> (Stats, Vec<(u64, u64)>) {
             .fold(Acc::default, |mut acc, ast| {
                 for f in ["", "u"] {
                     eval_one("boundary-classes", ast, Flags::parse(f), &hays, run, &mut acc);
+                }
+                acc
+            })
+            .reduce(Acc::default, Acc::merge);
+        total = total.merge(a);
+    }
+    // the size-parameterised families of the sweeps (long literals, many groups / alternatives, counts
+    // around 255 / 256, classes of a hundred intervals, long haystacks)
+    {
+        let light = LIGHT.load(std::sync::atomic::Ordering::Relaxed);
+        let mut fam = if light { Vec::new() } else { crate::sweep::scale_family(thorough) };
+        fam.extend(crate::sweep::alignment_family());
+        let a = fam
+            .par_iter()
+            .fold(Acc::default, |mut acc, (p, f, hs)| {
+                let pat: Vec<u32> = p.chars().map(|c| c as u32).collect();
+                let fl = Flags::parse(f);
+                if let Ok(ast) = crate::refparse::parse(&pat, fl) {
+                    let hays: Vec<Hay> = hs.iter().map(|h| Hay::new(h.chars().map(|c| c as u32).collect())).collect();
+                    eval_one("scale", &ast, fl, &hays, run, &mut acc);
                 }
                 acc
             })
